@@ -246,6 +246,25 @@ func mustReject(v interface{}) string {
 	default:
 		return "crs is neither a string nor an object"
 	}
+	if bbv, present := m["boundingBox"]; present && bbv != nil {
+		if bb, ok := bbv.(map[string]interface{}); ok {
+			for _, k := range []string{"lowerLeft", "upperRight"} {
+				if cv, present := bb[k]; present {
+					arr, ok := cv.([]interface{})
+					if !ok || len(arr) != 2 {
+						return "boundingBox." + k + " is not a pair"
+					}
+					for _, x := range arr {
+						if _, ok := x.(float64); !ok {
+							return "boundingBox." + k + " holds something that is not a number"
+						}
+					}
+				}
+			}
+		} else {
+			return "boundingBox is not an object"
+		}
+	}
 	tms, ok := m["tileMatrices"]
 	if !ok {
 		return "missing tileMatrices"
